@@ -71,9 +71,11 @@ STUBSETS['chars'] = [("<core::str::Chars<'_> as core::iter::Iterator>::next", '$
 STUBSETS['pipe'] += STUBSETS['adv'] + STUBSETS['chars']
 STUBSETS['pipe4'] = [(t, r.replace('sp_nfc', 'sp_nfc4').replace('sp_nfkc', 'sp_nfkc4')) for t, r in STUBSETS['pipe']]
 STUBSETS['pipe12'] = [(t, r.replace('sp_nfc', 'sp_nfc12').replace('sp_nfkc', 'sp_nfkc12')) for t, r in STUBSETS['pipe']]
+STUBSETS['stab2'] = [('precis_core::profile::stabilize', '$P::stubs::st_stabilize2')]
 STUBSETS['pipe_bidi'] = [('crate::bidi::bidi_class_cp', '$P::stubs::sp_bidi_class_cp')]
 
 STUB_DOC = {
+    'stab2': 'S-STAB2: profile::stabilize replaced by two plain applications of the rule function (quick Nickname harnesses only; stabilize itself is C13, the full loop on real code is in the thorough tier)',
     'pipe4': 'S-PIPE with normalizer capacity 4 (strings of at most 1 input character); see S-PIPE',
     'pipe12': 'S-PIPE with normalizer capacity 12 (strings of up to 3 input characters); see S-PIPE',
     'chars': 'S-CHARS: <Chars as Iterator>::next replaced by an equivalent UTF-8 decoder that indexes the remaining bytes (valid UTF-8 is '
@@ -529,17 +531,23 @@ HARNESSES = [
       funcs=['Rules methods of OpaqueString and Nickname (bindings and defaults)'], bound='concrete witnesses (binding of each rule)'),
     H('C06', 'c06_nickname_prepare_n1', '$P::pipe::nickname::<1, 4, 4, false, _>', unwind=5, stubs=('str', 'pipe4'), unwindset=pipe_us(1), timeout=1500, mem_gb=16,
       funcs=['Profile::prepare/enforce of Nickname', 'Nickname::apply_prepare_rules/apply_enforce_rules', 'profile::stabilize', 'nicknames::trim_spaces/find_disallowed_space', 'StringClass::allows'], bound='strings of 0..=1 characters over SIGMA_PIPE'),
-    H('C06', 'c06_nickname_enforce_n1', '$P::pipe::nickname::<1, 4, 4, true, _>', unwind=5, stubs=('str', 'pipe4'), unwindset=pipe_us(1), timeout=1500, mem_gb=34,
+    H('C06', 'c06_nickname_enforce_n1', '$P::pipe::nickname::<1, 4, 4, true, _>', unwind=5, stubs=('str', 'pipe4'), unwindset=pipe_us(1), tiers=T, timeout=1500, mem_gb=34,
       funcs=['Profile::prepare/enforce of Nickname', 'Nickname::apply_prepare_rules/apply_enforce_rules', 'profile::stabilize', 'nicknames::trim_spaces/find_disallowed_space', 'StringClass::allows'], bound='strings of 0..=1 characters over SIGMA_PIPE'),
     H('C06', 'c06_nickname_prepare_n2', '$P::pipe::nickname::<2, 8, 6, false, _>', unwind=8, stubs=('str', 'pipe'), unwindset=pipe_us(2), tiers=T, timeout=3500, mem_gb=44,
       funcs=['Profile::prepare/enforce of Nickname', 'Nickname::apply_prepare_rules/apply_enforce_rules', 'profile::stabilize', 'nicknames::trim_spaces/find_disallowed_space', 'StringClass::allows'], bound='strings of 0..=2 characters over SIGMA_PIPE'),
     H('C06', 'c06_nickname_enforce_n2', '$P::pipe::nickname::<2, 8, 6, true, _>', unwind=8, stubs=('str', 'pipe'), unwindset=pipe_us(2), tiers=T, timeout=3500, mem_gb=44,
       funcs=['Profile::prepare/enforce of Nickname', 'Nickname::apply_prepare_rules/apply_enforce_rules', 'profile::stabilize', 'nicknames::trim_spaces/find_disallowed_space', 'StringClass::allows'], bound='strings of 0..=2 characters over SIGMA_PIPE'),
+    H('C06', 'c06_nickname_two_rounds_n1', '$P::pipe::nickname_two_rounds::<1, 4, 4, false, _>', unwind=5, stubs=('str', 'pipe4', 'stab2'), unwindset=pipe_us(1), timeout=1500, mem_gb=24,
+      funcs=['Nickname::enforce', 'Nickname::apply_enforce_rules', 'Nickname::apply_prepare_rules', 'nicknames::trim_spaces/find_disallowed_space', 'FreeformClass::allows'],
+      bound='strings of 0..=1 characters over SIGMA_PIPE; two applications of the rule function (S-STAB2)'),
+    H('C07', 'c07_nickname_cmp_rounds_n1', '$P::pipe::nickname_two_rounds::<1, 4, 4, true, _>', unwind=5, stubs=('str', 'pipe4', 'stab2'), unwindset=pipe_us(1), timeout=1500, mem_gb=24,
+      funcs=['Nickname::compare', 'Nickname::apply_compare_rules', 'common::case_mapping_rule'],
+      bound='strings of 0..=1 characters over SIGMA_PIPE; two applications of the comparison rule function (S-STAB2)'),
     H('C06', 'c06_nickname_rounds', '$P::pipe::nickname_rounds', unwind=10, stubs=('str', 'pipe'), unwindset=pipe_us(2), timeout=900,
       funcs=['Profile::prepare/enforce of Nickname', 'Nickname::apply_prepare_rules/apply_enforce_rules', 'profile::stabilize', 'nicknames::trim_spaces/find_disallowed_space', 'StringClass::allows'], bound='the concrete input "a\\u00b4", whose NFKC form introduces a space (second round needed)'),
     H('C07', 'c07_compare_opaque_n1', '$P::pipe::compare_opaque::<1, 4, 4, _>', unwind=5, stubs=('str', 'pipe4'), unwindset=pipe_us(1), timeout=1500, mem_gb=16,
       funcs=['OpaqueString::compare', 'OpaqueString::enforce'], bound='all pairs of strings of 0..=1 characters over SIGMA_PIPE'),
-    H('C07', 'c07_compare_nickname_n1', '$P::pipe::compare_nickname::<1, 4, 4, _>', unwind=5, stubs=('str', 'pipe4'), unwindset=pipe_us(1), timeout=1500, mem_gb=20,
+    H('C07', 'c07_compare_nickname_n1', '$P::pipe::compare_nickname::<1, 4, 4, _>', unwind=5, stubs=('str', 'pipe4'), unwindset=pipe_us(1), tiers=T, timeout=1500, mem_gb=20,
       funcs=['Nickname::compare', 'Nickname::apply_compare_rules', 'profile::stabilize', 'common::case_mapping_rule'],
       bound='all pairs of strings of 0..=1 characters over SIGMA_PIPE'),
     H('C07', 'c07_compare_opaque_n2', '$P::pipe::compare_opaque::<2, 8, 6, _>', unwind=8, stubs=('str', 'pipe'), unwindset=pipe_us(2), tiers=T, timeout=3500, mem_gb=44,
@@ -621,8 +629,8 @@ HARNESSES.append(H('C01', 'c01_ctx_rules_n3', '$P::c01::ctx_rules::<3, 12, _>', 
                    bound='labels of 0..=3 characters, every character any Unicode scalar value; offset ANY usize; any rule'))
 for _src, _t in [('c14_pairing', Q), ('c14_pred_is_space', Q), ('c14_pred_is_unassigned', Q), ('c02_any_class_n4', Q),
                  ('c12_nick_map_n3', Q), ('c12_opaque_map_n3', Q), ('c11_width_map_n3', Q), ('c10_case_sigma_n3', Q),
-                 ('c13_stabilize_any_fn', Q), ('c05_opaque_enforce_n1', Q), ('c06_nickname_enforce_n1', Q), ('c04_username_mapped_enforce_n1', Q),
-                 ('c07_compare_nickname_n1', Q), ('c09_bidi_rule_n4', Q),
+                 ('c13_stabilize_any_fn', Q), ('c05_opaque_enforce_n1', Q), ('c06_nickname_two_rounds_n1', Q), ('c04_username_mapped_enforce_n1', Q),
+                 ('c07_nickname_cmp_rounds_n1', Q), ('c09_bidi_rule_n4', Q),
                  ('c12_nick_map_n5', T), ('c12_opaque_map_n5', T), ('c02_any_class_n6', T), ('c06_nickname_enforce_n2', T), ('c04_username_mapped_enforce_n2', T)]:
     HARNESSES.append(_c01(_src, _t))
 
